@@ -128,7 +128,36 @@ OBJECTS = [
     ('mock-NonCallableMock', lambda: __import__('unittest.mock').mock.NonCallableMock()),
     ('mock-call', lambda: __import__('unittest.mock').mock.call),
     ('catch-all-getattr-callable', lambda: _catch_all(True)), ('catch-all-getattr-noncallable', lambda: _catch_all(False)),
+    # a method that forwards its own star together with an attribute whose value discovery can look at
+    ('star-attr-kwargs-None', lambda: _star_attr('**self.more', 'None')), ('star-attr-kwargs-int', lambda: _star_attr('**self.more', '5')),
+    ('star-attr-kwargs-dict', lambda: _star_attr('**self.more', "{'z': 1}")),
+    ('star-attr-kwargs-nonstr-keys', lambda: _star_attr('**self.more', '{1: 2}')),
+    ('star-attr-kwargs-list-of-singletons', lambda: _star_attr('**self.more', "[('a',)]")),
+    ('star-attr-args-None', lambda: _star_attr('*self.more', 'None')), ('star-attr-args-int', lambda: _star_attr('*self.more', '5')),
+    ('star-attr-args-tuple', lambda: _star_attr('*self.more', '(1,)')),
+    ('star-attr-args-too-many', lambda: _star_attr('*self.more', '(1, 2, 3, 4)')),
+    ('star-attr-args-str', lambda: _star_attr('*self.more', "'ab'")),
+    # functions made by a factory whose body refers to the factory's variables
+    ('closure-nonlocal-in-nested-def', lambda: _factory('def bump():\n            nonlocal calls\n            calls += 1\n        bump()')),
+    ('closure-nonlocal-at-top', lambda: _factory('nonlocal calls\n        calls += 1')),
+    ('closure-nonlocal-two-levels', lambda: _factory('def a():\n            def b():\n                nonlocal calls\n                calls += 1\n            b()\n        a()')),
+    ('closure-nonlocal-named-like-star', lambda: _factory('def bump():\n            nonlocal calls, kwargs\n            calls += 1\n        bump()')),
+    ('closure-global-in-nested-def', lambda: _factory('def bump():\n            global calls_g\n            calls_g = 1\n        bump()')),
 ]
+
+
+def _factory(stmts):
+    src = (_CALLEE + 'def make():\n    calls = 0\n    def wrapper(*args, **kwargs):\n        %s\n        return callee(*args, **kwargs)\n'
+           '    return wrapper\nwrapper = make()\n' % stmts)
+    return _source_fn(src, 'wrapper')
+
+
+def _star_attr(star, value):
+    own = '*args' if star.startswith('**') else '**kwargs'
+    src = (_CALLEE + 'class Holder(object):\n    def __init__(self):\n        self.more = %s\n'
+           '    def meth(self, *args, **kwargs):\n        return callee(%s)\n' % (
+               value, ', '.join(sorted([own, star], key=lambda t: t.count('*')))))
+    return _source_fn(src, 'Holder')().meth
 
 
 def _catch_all(callable_):
@@ -443,7 +472,7 @@ def plan(tier):
     if tier == 'quick':
         return [
             dict(name='constructs-pairs', fn='h_constructs', depth=9, budget_s=300, cfg=dict(pairs=True),
-                 bounds='every single and every ordered pair of 55 statement constructs x 7 function kinds x with/without forwarding call x with/without own parameters; 50 special objects (mock-like catch-all __getattr__ objects included)',
+                 bounds='every single and every ordered pair of 55 statement constructs x 7 function kinds x with/without forwarding call x with/without own parameters; 65 special objects (mock-like catch-all __getattr__ objects, methods forwarding a star attribute and factory-made closures included)',
                  min_nontrivial=300, must_reach=['returns-whenever-inspect-does', 'raises-the-same-exception-type',
                                                  'only-narrows-own-signature']),
             dict(name='corpus-quick', fn='h_corpus', depth=8, budget_s=300, cfg=dict(thorough=False),
@@ -455,7 +484,7 @@ def plan(tier):
         ]
     return [
         dict(name='constructs-pairs', fn='h_constructs', depth=10, budget_s=2400, cfg=dict(pairs=True),
-             bounds='every pair of the 55 statement constructs x 7 function kinds x site x parameters; 50 special objects (mock-like catch-all __getattr__ objects included)', min_nontrivial=300),
+             bounds='every pair of the 55 statement constructs x 7 function kinds x site x parameters; 65 special objects (mock-like catch-all __getattr__ objects, methods forwarding a star attribute and factory-made closures included)', min_nontrivial=300),
         dict(name='corpus-thorough', fn='h_corpus', depth=10, budget_s=3000, cfg=dict(thorough=True),
              bounds='every callable reachable from ~120 importable modules (stdlib, packages installed in /venv, sigtools)', min_nontrivial=1000),
         dict(name='sphinx-hook', fn='h_sphinx', depth=4, budget_s=120, cfg=dict(), bounds='27 documentable names of the fixture module',
